@@ -18,7 +18,14 @@ func vh_TS() {
 	preVisible := n.snaps.visibleCount()
 	window := vChoose("window", 3)
 	vTagInt("window", window)
-	visibleBeforeCompact := true
+	// C14 ordering: at the instant the snapshot becomes visible the log must still hold everything
+	// (a crash right after must not leave a compacted log without its snapshot)
+	n.snaps.onVisible = func(rec *vSnapRec) {
+		if window != 2 {
+			vAssert(vAnd(n.log.entries[0].Index == pre.firstIndex, len(n.log.entries) == pre.logLen), "C14.snapshot-visible-before-log-is-compacted")
+			vAssert(r.lastIncludedIndex == pre.lastIncludedIndex, "C14.boundary-moves-only-after-snapshot-is-visible")
+		}
+	}
 	n.fsm.onSnap = func() {
 		vAssert(!vHeld(&r.mu), "C20.lock-released-around-snapshot")
 		switch window {
@@ -93,6 +100,5 @@ func vh_TS() {
 	for j := 0; j < post.logLen && off+j < pre.logLen; j++ {
 		vAssert(post.terms[j] == pre.terms[off+j], "C11.compaction-keeps-exactly-the-suffix")
 	}
-	vAssert(visibleBeforeCompact, "C14.noop")
 	vAssert(vAnd(post.applied >= pre.applied, post.commit >= pre.commit), "C11.snapshot-never-moves-indices-back")
 }
